@@ -4,7 +4,8 @@ Case: one G-CDEF spec (vlib/cdefgen.py: typedef chains, structs/unions with
 bitfields/arrays/nested aggregates/function pointers, opaque types, enums,
 #define and static const integers, functions, globals, function-pointer
 typedefs -- all of which verify() supports), optionally with some structs
-rendered as partial ('...;' and a subset of the fields) in the cdef, plus
+rendered as partial ('...;' and a subset of the fields), some '#define NAME ...'
+and some 'static const T NAME;' without value in the cdef, plus
 argument tuples for every function and values to store into every global.
 
 The same (cdef, C source) pair is built three times:
@@ -49,7 +50,7 @@ MIN_PER_SHARD = 2
 TIME = {'quick': 20, 'thorough': 840}
 CRASHY = True
 
-FEATURES = cdefgen.DEFAULT_FEATURES
+FEATURES = cdefgen.DEFAULT_FEATURES | frozenset(['const_novalue'])     # 'static const int K;' works in verify() too
 _counter = itertools.count()
 _built = collections.OrderedDict()
 
@@ -93,6 +94,37 @@ def arg_strategy(spec, t):
     raise ValueError(t)
 
 
+def _by_value_tags(spec, t, seen=None):
+    """tags of the aggregates that a field of type t embeds by value (transitively)"""
+    out = set()
+    if t[0] == 'arr':
+        return _by_value_tags(spec, t[2])
+    if t[0] == 'td':
+        try:
+            return _by_value_tags(spec, cdefgen.resolve(t, spec))
+        except KeyError:
+            return out
+    if t[0] == 'agg':
+        out.add(t[2])
+        for d in spec['decls']:
+            if d['k'] == 'struct' and d['tag'] == t[2]:
+                for _, ft, _ in d['fields']:
+                    out |= _by_value_tags(spec, ft)
+    return out
+
+
+def no_partial_allowed(spec):
+    """cffi refuses (NotImplementedError) an aggregate with bitfields that embeds a '...' struct:
+    tags that must stay complete"""
+    out = set()
+    for d in spec['decls']:
+        if d['k'] == 'struct' and any(b for _, _, b in d['fields']):
+            out.add(d['tag'])
+            for _, ft, _ in d['fields']:
+                out |= _by_value_tags(spec, ft)
+    return out
+
+
 def strategy(ctx):
     callgen.allow_big_examples()
 
@@ -102,11 +134,15 @@ def strategy(ctx):
         spec = draw(cdefgen.specs(features=FEATURES, min_decls=12, max_decls=26))
         partial = {}
         calls, gsets = [], []
+        complete_only = no_partial_allowed(spec)
         for i, d in enumerate(spec['decls']):
-            if d['k'] == 'struct' and d['kw'] == 'struct' and not any(b for _, _, b in d['fields']):
+            if d['k'] == 'struct' and d['kw'] == 'struct' and d['tag'] not in complete_only:
                 if draw(st.integers(0, 1)) == 0:
                     keep = [j for j in range(len(d['fields'])) if draw(st.booleans())]
                     partial[str(i)] = keep or [0]
+            elif d['k'] == 'define' and not 1 <= d['value'] <= 9:      # (1..9 may be array lengths later on)
+                if draw(st.booleans()):
+                    partial[str(i)] = []            # rendered as  #define NAME ...
             elif d['k'] == 'func':
                 for _ in range(draw(st.integers(4, 10))):
                     calls.append([i, [draw(arg_strategy(spec, t)) for t in d['args']]])
@@ -125,7 +161,9 @@ def strategy(ctx):
 def render_cdef(spec, partial):
     lines = []
     for i, (d, (text, _)) in enumerate(zip(spec['decls'], cdefgen.decl_lines(spec))):
-        if str(i) in partial:
+        if str(i) in partial and d['k'] == 'define':
+            text = '#define %s ...' % d['name']
+        elif str(i) in partial:
             keep = partial[str(i)]
             body = ' '.join('%s;' % cdefgen.declarator(d['fields'][j][1], d['fields'][j][0]) for j in keep)
             if d['tdname']:
@@ -219,6 +257,8 @@ def _value(ffi, x):
 def _build_arg(ffi, lib, v, ctext):
     if v[0] == 'castptr':
         return ffi.cast(ctext, v[1])
+    if v[0] in ('fn', 'fnaddr'):
+        return len                  # (callgen's "a function object" wrong-type value; no helpers here)
     return callgen.build_value(ffi, lib, v, callgen.Built())
 
 
@@ -248,7 +288,7 @@ def prop(case, ctx):
     narrow = any(cdefgen.resolve(t, spec)[0] == 'prim' and cdefgen.resolve(t, spec)[1] in callgen.INTS
                  and callgen.INTS[cdefgen.resolve(t, spec)[1]][0] < 64
                  for d in decls if d['k'] == 'func' for t in d['args'])
-    nontriv = bool(narrow and partial)
+    nontriv = bool(narrow and any(decls[int(i)]['k'] == 'struct' for i in partial))
     if case['distutils']:
         ctx.event('compiled-by-distutils')
 
@@ -271,7 +311,8 @@ def prop(case, ctx):
         if k in ('define', 'const'):
             check('constant %s' % d['name'],
                   [_outcome(lambda e=e: _value(builds[e][0], getattr(builds[e][1], d['name']))) for e in ENGINES],
-                  ['constant', 'constant>=2**63' if d['value'] >= 2 ** 63 else 'constant<0' if d['value'] < 0 else 'constant-small'],
+                  ['constant', 'constant>=2**63' if d['value'] >= 2 ** 63 else 'constant<0' if d['value'] < 0 else 'constant-small',
+                   'constant-value-from-compiler' if (str(i) in partial or not d.get('withval', True)) else 'constant-value-in-cdef'],
                   expected=['int', d['value']])
         elif k == 'enum':
             for name, v in _enum_values(d):
@@ -313,8 +354,12 @@ def prop(case, ctx):
 
         def store(e):
             ffi, lib = builds[e]
-            setattr(lib, d['name'], callgen.build_value(ffi, lib, v, callgen.Built()))
-            return _value(ffi, getattr(lib, d['name']))
+            try:
+                setattr(lib, d['name'], _build_arg(ffi, lib, v, None))
+                return _value(ffi, getattr(lib, d['name']))
+            finally:
+                # builds are reused by later (mutated / shrunk) cases: put the initial value back
+                setattr(lib, d['name'], ffi.cast(d['type'][1], d['init']))
         outs = [_outcome(lambda e=e: store(e)) for e in ENGINES]
         check('store into global %s %s' % (d['type'][1], d['name']), outs,
               ['global-write', 'global-write:' + ('ok' if outs[0][0] == 'ok' else outs[0][1])], key=v)
